@@ -505,7 +505,19 @@ func (b *builder) evalCond(e ast.Expr, guards []guard) (val bool, known bool) {
 				return false, true
 			}
 			return false, false
-		case token.EQL, token.NEQ:
+		case token.EQL, token.NEQ, token.GTR:
+			// len(X) compared with 0 where X is a literal (or nil)
+			if n, ok := litLen(x.X); ok && isZeroLit(x.Y) {
+				switch x.Op {
+				case token.EQL:
+					return n == 0, true
+				case token.NEQ, token.GTR:
+					return n != 0, true
+				}
+			}
+			if x.Op == token.GTR {
+				break
+			}
 			var other ast.Expr
 			if isNilIdent(x.Y) {
 				other = x.X
@@ -567,4 +579,39 @@ func (b *builder) nilness(e ast.Expr, guards []guard) (isNil bool, known bool) {
 		return v, true
 	}
 	return false, false
+}
+
+// litLen: e is len(X) with X a composite literal (its element count) or nil (0).
+func litLen(e ast.Expr) (int, bool) {
+	call, ok := unparen(e).(*ast.CallExpr)
+	if !ok || len(call.Args) != 1 {
+		return 0, false
+	}
+	if id, ok := call.Fun.(*ast.Ident); !ok || id.Name != "len" {
+		return 0, false
+	}
+	switch x := unparen(call.Args[0]).(type) {
+	case *ast.CompositeLit:
+		for _, el := range x.Elts {
+			if _, isKV := el.(*ast.KeyValueExpr); isKV {
+				return 0, false // indexed elements: the length is not the count
+			}
+		}
+		return len(x.Elts), true
+	case *ast.Ident:
+		if x.Name == "nil" {
+			return 0, true
+		}
+	case *ast.CallExpr:
+		// T(nil)
+		if len(x.Args) == 1 && isNilIdent(x.Args[0]) {
+			return 0, true
+		}
+	}
+	return 0, false
+}
+
+func isZeroLit(e ast.Expr) bool {
+	bl, ok := unparen(e).(*ast.BasicLit)
+	return ok && bl.Value == "0"
 }
